@@ -221,6 +221,58 @@ example : ((St.init exCfg).exec [.die .start 4]).fs.slots 0 = some [] ∧
       some [.header, .rec_ ⟨0, 8⟩, .rec_ ⟨1, 8⟩] := by
   decide
 
+/-! ## `os.rename` failing inside a rotation
+
+`Op.fault n`: the `n`-th `os.rename` call from now raises `OSError` although its source exists
+(`Prim.renameErr`); a missing source raises by itself.  The code (`Log.cycle`) stops the chain at
+the first failure (`break`), reopens the main file for append and reports failure.  The history
+theorems above are stated for runs without injected faults (`proto` rejects `fault`); what the
+unchanged code guarantees when a rename fails is the chain theorem below, for ANY pattern of
+existing copies and ANY failing call; whole histories with faults are tied to the code by the
+correspondence runs.  Observation (`decide` examples below): after one failed rename the hole it
+leaves makes every later chain of the same process fail at once (`rename` of a missing source), so
+rotation does not resume until the next process start refills the hole — the main file grows past
+`fileSize`; and a chain that fails after it has overwritten the oldest copy has dropped one retained
+generation without rotating. Nothing that is retained is ever overwritten in the middle. -/
+
+/-- **a rename chain in which `os.rename` fails**: from a closed, flushed log whose slot `k` is the
+hole the chain made (or the oldest copy), whatever copies exist and whichever call raises: every
+crash point up to and through the chain satisfies the invariant `P` — the retained files hold a
+contiguous suffix of the record stream with only flushed records dropped (only the oldest copy is
+ever overwritten), every file is empty or one header followed by records, the newest file holds the
+records since the last rotation — the files end closed with nothing buffered, and a chain that
+failed has left the main file exactly as it was (the code then reopens it for append: it keeps its
+header). -/
+theorem C23_failed_rename_keeps_invariant (s : St) (k : Nat) (h : ChainF true s k) :
+    (∀ n, P s.cfg.keep true ((s.renames k).1.fs0.applyAll ((s.renames k).1.trace.take n))
+        (acctOf ((s.renames k).1.trace.take n))) ∧
+    (s.renames k).1.fs.buf = [] ∧ (s.renames k).1.fs.isOpen = false ∧
+    ((s.renames k).2 = false → (s.renames k).1.fs.slots 0 = s.fs.slots 0) := by
+  obtain ⟨g, r2, r3, r4, _, r6⟩ := renames_fault_spec s k h
+  refine ⟨fun n => ?_, r2, r3, r6⟩
+  have := AllP_take g.all n
+  rw [r4] at this
+  exact this
+
+/-- rename 0 (main → 01) fails in the first rotation: nothing is lost, the main file keeps its header
+and its records, but the hole at 01 stops every later rotation of this life; the next life rotates again -/
+def faultH : List Op :=
+  [.ctl .start, .advance 8, .fault 1, .ctl .run, .advance 8, .ctl .run, .advance 8, .ctl .run]
+set_option maxRecDepth 8000 in
+example : ((St.init exCfg).exec faultH).trace.drop 5 =
+    [.write [.rec_ ⟨1, 8⟩], .sync, .sync, .sync, .closeF, .rename 1, .renameErr 0, .openA,
+     .write [.rec_ ⟨2, 8⟩], .sync, .sync, .sync, .closeF, .rename 1, .openA,
+     .write [.rec_ ⟨3, 8⟩], .sync, .sync, .sync, .closeF, .rename 1, .openA] := by decide
+set_option maxRecDepth 8000 in
+example : ((St.init exCfg).exec faultH).fs.slots 0 =
+      some [.header, .rec_ ⟨0, 8⟩, .rec_ ⟨1, 8⟩, .rec_ ⟨2, 8⟩, .rec_ ⟨3, 8⟩] ∧
+    ((St.init exCfg).exec faultH).fs.slots 1 = none ∧ ((St.init exCfg).exec faultH).failAt = none := by decide
+set_option maxRecDepth 8000 in
+example : recsOf (((St.init exCfg).exec (faultH ++ [.reboot, .ctl .start, .advance 8, .ctl .run])).fs.view 2) =
+      [⟨0, 8⟩, ⟨1, 8⟩, ⟨2, 8⟩, ⟨3, 8⟩, ⟨4, 8⟩, ⟨5, 8⟩] ∧
+    ((St.init exCfg).exec (faultH ++ [.reboot, .ctl .start, .advance 8, .ctl .run])).fs.slots 0 = some [.header] := by
+  decide
+
 /-! ## loggers with several logs
 
 `Logger.reopen / prepare / log / flush / cycle / close` loop over the logs; the flush and cycle
@@ -243,7 +295,7 @@ theorem C23_multi_crash_keeps_flushed (cfg : Cfg) (hfix : cfg.emptyIsNew = true)
       ∃ k, k ≤ (acctOf (s.trace.take m)).flushed.length ∧
         recsOf ((s.crashAt m).view cfg.keep) = (acctOf (s.trace.take m)).flushed.drop k := by
   refine ⟨_, C23_logs_lockstep cfg hs h i hz hi, ?_⟩
-  exact C23_crash_keeps_flushed { cfg with hsize := hz } hfix (proj i h) (by rw [proto_proj]; exact hp) m
+  exact C23_crash_keeps_flushed { cfg with hsize := hz } hfix (proj i h) (proto_proj i _ h hp) m
 
 /-- … and every log's files are contiguous and start with their header, at every crash point. -/
 theorem C23_multi_contiguous_and_headers (cfg : Cfg) (hfix : cfg.emptyIsNew = true) (hs : List Nat) (h : List MOp)
@@ -253,8 +305,8 @@ theorem C23_multi_contiguous_and_headers (cfg : Cfg) (hfix : cfg.emptyIsNew = tr
               recsOf (({} : FS).applyAll (s.trace.take m)).buf = (acctOf (s.trace.take m)).written.drop k) ∧
       ∀ j, Shape (content ((s.crashAt m).slots j)) := by
   refine ⟨_, C23_logs_lockstep cfg hs h i hz hi, ?_, ?_⟩
-  · exact C23_rotation_contiguous { cfg with hsize := hz } hfix (proj i h) (by rw [proto_proj]; exact hp) m
-  · exact fun j => C23_each_file_header { cfg with hsize := hz } hfix (proj i h) (by rw [proto_proj]; exact hp) m j
+  · exact C23_rotation_contiguous { cfg with hsize := hz } hfix (proj i h) (proto_proj i _ h hp) m
+  · exact fun j => C23_each_file_header { cfg with hsize := hz } hfix (proj i h) (proto_proj i _ h hp) m j
 
 /-- two logs, deck and always, one flush tick: both are flushed -/
 example : ((MSt.exec (MSt.init (Cfg.ofArgs 0 0 0 8 true 20) [20, 22])
